@@ -242,7 +242,7 @@ extern "C" void h_bstri(int kind, int n, int t, int k) {
 }
 
 // BSSubIndexTriShape: FO4 segmentation (2 segments, first with 2 sub-segments) / SSE segments
-extern "C" void h_bssits(int fo4, int n, int t, int k) {
+extern "C" void h_bssits(int fo4, int n, int t, int k, int second) {
 	BSSubIndexTriShape s;
 	std::vector<Triangle> tb;
 	fill_bstri(s, n, t, tb);
@@ -275,29 +275,45 @@ extern "C" void h_bssits(int fo4, int n, int t, int k) {
 		s.segments[2].index = b * 3;
 		s.segments[2].numTris = t - b;
 	}
-	auto before = s.vertData;
-	auto idx = del_list(k, n);
-	s.notifyVerticesDelete(idx);
-	check_bstri(s, n, k, before, tb, idx);
-	// expected remaining triangles per range
-	unsigned ra = 0, rb = 0, rc = 0;
-	for (int i = 0; i < t; i++) {
-		bool gone = deleted(idx, tb[i].p1) | deleted(idx, tb[i].p2) | deleted(idx, tb[i].p3);
-		unsigned keep = gone ? 0 : 1;
-		ra += ((uint32_t) i < a) ? keep : 0;
-		rb += ((uint32_t) i >= a && (uint32_t) i < b) ? keep : 0;
-		rc += ((uint32_t) i >= b) ? keep : 0;
-	}
-	if (fo4) {
-		auto& sg = s.segmentation;
-		sym_assert(sg.numPrimitives == s.GetNumTriangles(), "C09-seg-total: segmentation total differs from triangle count");
-		sym_assert(sg.segments[0].numPrimitives == ra + rb && sg.segments[1].numPrimitives == rc, "C09-seg-count: segment triangle counts wrong after deletion");
-		sym_assert(sg.segments[0].startIndex == 0 && sg.segments[1].startIndex == 3 * (ra + rb), "C09-seg-start: segment ranges not contiguous after deletion");
-		sym_assert(sg.segments[0].subSegments[0].numPrimitives == ra && sg.segments[0].subSegments[1].numPrimitives == rb, "C09-subseg-count: sub-segment triangle counts wrong after deletion");
-		sym_assert(sg.segments[0].subSegments[0].startIndex == 0 && sg.segments[0].subSegments[1].startIndex == 3 * ra, "C09-subseg-start: sub-segment ranges not contiguous after deletion");
-	}
-	else {
-		sym_assert(s.segments[0].numTris == ra && s.segments[1].numTris == rb && s.segments[2].numTris == rc, "C09-sseg-count: SSE segment triangle counts wrong after deletion");
+	// region of every triangle: 0 = [0,a), 1 = [a,b), 2 = [b,t); a second round deletes one more vertex from the result
+	std::vector<int> reg(t);
+	for (int i = 0; i < t; i++)
+		reg[i] = ((uint32_t) i < a) ? 0 : ((uint32_t) i < b) ? 1 : 2;
+	int ncur = n;
+	for (int round = 0; round < (second ? 2 : 1); round++) {
+		int kk = round == 0 ? k : 1;
+		if (ncur < kk)
+			break;
+		auto before = s.vertData;
+		std::vector<Triangle> tcur = s.triangles;
+		auto idx = del_list(kk, ncur);
+		s.notifyVerticesDelete(idx);
+		check_bstri(s, ncur, kk, before, tcur, idx);
+		// expected remaining triangles per range
+		unsigned ra = 0, rb = 0, rc = 0;
+		std::vector<int> reg2;
+		for (size_t i = 0; i < tcur.size(); i++) {
+			bool gone = deleted(idx, tcur[i].p1) | deleted(idx, tcur[i].p2) | deleted(idx, tcur[i].p3);
+			unsigned keep = gone ? 0 : 1;
+			ra += (reg[i] == 0) ? keep : 0;
+			rb += (reg[i] == 1) ? keep : 0;
+			rc += (reg[i] == 2) ? keep : 0;
+			if (!gone)
+				reg2.push_back(reg[i]);
+		}
+		if (fo4) {
+			auto& sg = s.segmentation;
+			sym_assert(sg.numPrimitives == s.GetNumTriangles(), "C09-seg-total: segmentation total differs from triangle count");
+			sym_assert(sg.segments[0].numPrimitives == ra + rb && sg.segments[1].numPrimitives == rc, "C09-seg-count: segment triangle counts wrong after deletion");
+			sym_assert(sg.segments[0].startIndex == 0 && sg.segments[1].startIndex == 3 * (ra + rb), "C09-seg-start: segment ranges not contiguous after deletion");
+			sym_assert(sg.segments[0].subSegments[0].numPrimitives == ra && sg.segments[0].subSegments[1].numPrimitives == rb, "C09-subseg-count: sub-segment triangle counts wrong after deletion");
+			sym_assert(sg.segments[0].subSegments[0].startIndex == 0 && sg.segments[0].subSegments[1].startIndex == 3 * ra, "C09-subseg-start: sub-segment ranges not contiguous after deletion");
+		}
+		else {
+			sym_assert(s.segments[0].numTris == ra && s.segments[1].numTris == rb && s.segments[2].numTris == rc, "C09-sseg-count: SSE segment triangle counts wrong after deletion");
+		}
+		reg = reg2;
+		ncur -= kk;
 	}
 	sym_reach("end");
 }
